@@ -189,6 +189,8 @@ def bare(cls, **attrs):
     obj._workers     = dict()
     obj._subscribers = dict()
     obj._threads     = dict()
+    obj._cb_lock     = NoLock()
+    obj._rpc_lock    = NoLock()
     obj._rpc_reqs    = dict()
     obj._rpc_handlers = dict()
     obj._term        = mt.Event()
